@@ -1,5 +1,4 @@
-//go:build verif
-
+//go:build verif && verif_c05
 package excelize
 
 import (
